@@ -24,6 +24,8 @@ ShapesR  == {<<2, 3>>, <<2, 2, 2>>}
 Steps12  == {1, 2}
 Steps123 == {1, 2, 3}
 Steps01  == {0, 1}
+StepsNeg == {-2, -1, 1}
+ShapesN  == {<<4>>, <<2, 3>>}
 ShapesB  == {<<2, 2>>, <<3, 1>>}
 ShapesZ  == {<<2, 3>>, <<3, 1>>, <<2, 1, 2>>}
 \* sibling views of one store as source and destination of a whole-array operation (same origin and shape but
